@@ -693,10 +693,7 @@ func init() {
 
 		// ---- stage 1: exhaustive grammar enumeration ----
 		{
-			maxLen := c.N(7, 9)
-			if c.Search {
-				maxLen = c.N(8, 9)
-			}
+			maxLen := c.N(7, 9) // in search mode the quick tier keeps the bound but runs every precision
 			st := c.R.StartStage("enum-grammar", fmt.Sprintf("every string of [+-]?(d+.?d*|.d+)([eE][+-]?d+)? with d in {0,1,4,5,9} up to length %d (Decimal: those without exponent part), precisions: quick tier = 0 always, all of 1..#mantissa digits+1 for lexemes shorter than the bound and two of them (rotating) at the bound, all of -1..20 on every 8th shorter lexeme; thorough tier = all of -1..20; non-trivial = output differs from input", maxLen))
 			st.Exhaustive = true
 			b := newBatch(st)
